@@ -102,6 +102,10 @@ class Ranger:
         self.depth = 0
         self._refmemo = {}
         self._keep = []
+        self.adt_range = None  # type path -> (lo, hi) of the discriminants of a fieldless enum
+        self.const_hir = None  # const path -> HIR of its initialiser
+        self.fn_of = None  # fn path -> fn record (for inlining small helpers)
+        self.param_field_range = None  # (param name, field) -> range over all call sites (constant struct arguments)
         self.guard_fn = None  # path -> (index of the guarded argument, index of the bound argument) for guard helper functions
         self.grown = set()  # names of collections that grow after their initialisation (set by the Walker's owner)
 
@@ -175,6 +179,46 @@ class Ranger:
             return None
         finally:
             self.depth -= 1
+
+    def inline_range(self, path, args, env, at):
+        """range of a call to a small crate function: its body evaluated with the parameters bound to the ranges of the arguments"""
+        if self.fn_of is None or not path or not path.startswith(("crate::", "<crate::")) or self.depth > 30:
+            return None
+        fn = self.fn_of(path)
+        if fn is None or fn.get("hir") is None or len(fn["params"]) != len(args):
+            return None
+        body = H.strip(fn["hir"])
+        n_nodes = sum(1 for _ in H.walk(body))
+        if n_nodes > 120 or any(H.tag(x) in ("for", "while", "loop", "ret") for x in H.walk(body)):
+            return None
+        e2 = Env()
+        for p, a in zip(fn["params"], args):
+            if H.tag(p) != "bind":
+                return None
+            r = self.rng(a, env, at)
+            a0 = H.strip_refs(a)
+            fmap = None
+            if H.tag(a0) == "path" and self.const_hir is not None:
+                lit = H.strip(self.const_hir(a0[1]) or [])
+                if H.tag(lit) == "struct":
+                    fmap = {f: self.rng(fv, env, at) for f, fv in lit[2]}
+                    fmap = {k: v for k, v in fmap.items() if v is not None}
+            if fmap:
+                e2.set(p[1], ("fieldmap", fmap), 0)
+            elif r is not None:
+                e2.set(p[1], ("range", r[0], r[1]), 0)
+            else:
+                e2.set(p[1], ("type", p[4]), 0)
+        saved = (self.mutated, self.param_range, self.param_field_range)
+        self.mutated, self.param_range, self.param_field_range = set(), (lambda name: None), None
+        try:
+            r = self.rng(body, e2, 0)
+        finally:
+            self.mutated, self.param_range, self.param_field_range = saved
+        tr = ty_range(fn.get("output") or "")
+        if r is not None and tr is not None and not (tr[0] <= r[0] and r[1] <= tr[1]):
+            return None
+        return r
 
     def resolve_ref(self, ref):
         """-> ("ref"|"inv", lo, hi) or None for a recorded fact, evaluating a condition recorded by Walker.refine on first use"""
@@ -271,6 +315,8 @@ class Ranger:
         if t == "cast":
             r = self.rng(n[4], env, at)
             tr = ty_range(n[3])
+            if r is None and self.adt_range is not None and n[2] not in INT_TYPES:
+                r = self.adt_range(n[2])  # a fieldless enum cast to an integer: the range of its discriminants
             if r is None:
                 r = ty_range(n[2])
             if tr is None:
@@ -301,6 +347,9 @@ class Ranger:
                 ga = H.call_gargs(n)
                 w = {"u8": 1, "u16": 2, "u32": 4, "u64": 8, "f32": 4, "i32": 4}.get(ga[0] if ga else "")
                 return (w, w) if w else None
+            inl = self.inline_range(p, args, env, at)
+            if inl is not None:
+                return inl
             ok = result_ok(n[4]) if len(n) > 4 else None
             if ok:
                 return ty_range(ok)
@@ -335,6 +384,9 @@ class Ranger:
                 if a and b:
                     return (min(a[0], b[0]), min(a[1], b[1]))
                 return a or b
+            inl = self.inline_range(mc["path"], [mc["recv"]] + mc["args"], env, at)
+            if inl is not None:
+                return inl
             return ty_range(mc["ty"]) or ty_range(result_ok(mc["ty"]) or "")
         if t == "bin":
             op = n[2]
@@ -378,6 +430,20 @@ class Ranger:
             return self.rng(n[2], e2, at) if n[2] is not None else None
         if t == "field":
             base = H.strip_refs(n[1])
+            if H.tag(base) == "local" and self.param_field_range is not None:
+                b = env.get(base[1], at)
+                if b is not None and b[0] == "param":
+                    r = self.param_field_range(base[1], n[2])
+                    if r is not None:
+                        return r
+                if b is not None and b[0] == "fieldmap" and n[2] in b[1]:
+                    return b[1][n[2]]
+            if H.tag(base) == "path" and self.const_hir is not None:
+                lit = H.strip(self.const_hir(base[1]) or [])
+                if H.tag(lit) == "struct":
+                    for fname, fv in lit[2]:
+                        if fname == n[2]:
+                            return self.rng(fv, env, at)
             if H.tag(base) == "local" and n[2] == "size":
                 b = env.get(base[1], at)
                 ty = b[3] if b is not None and b[0] == "expr" else (b[1] if b is not None and b[0] in ("type", "param") else None)
@@ -386,6 +452,13 @@ class Ranger:
             return None
         if t == "idx":
             bt = (n[2] or "")
+            base = H.strip_refs(n[3])
+            if H.tag(base) == "path" and self.const_hir is not None:
+                arr = H.strip(self.const_hir(base[1]) or [])
+                if H.tag(arr) == "array":
+                    rs = [self.rng(e, env, at) for e in arr[1]]
+                    if rs and all(r is not None for r in rs):
+                        return (min(r[0] for r in rs), max(r[1] for r in rs))  # any element of a constant table
             if "u8" in bt:
                 return (0, 255)
             return None
@@ -979,3 +1052,229 @@ class Walker:
                 self.seq += 1
                 self.last_assign[nm] = self.seq
                 env.kill("#ref:" + nm, self.seq)
+
+
+class NotPure(Exception):
+    pass
+
+
+class PureEval:
+    """Evaluation of pure integer / boolean expressions for concrete inputs: literals, evaluated constants, locals (looked through their `let`
+    initialisers), casts, arithmetic with Rust's overflow rules (a result outside the type of an Add / Sub / Mul / Shl raises OverflowError),
+    comparisons, `if`, blocks with `let`s, the saturating / wrapping / min / max integer methods, widening `from` / `into`, and calls of small
+    pure crate functions (inlined).  Used to decide a site for every value of a small input domain."""
+
+    INT_METHODS = ("saturating_sub", "saturating_add", "wrapping_sub", "wrapping_add", "wrapping_mul", "min", "max", "abs", "pow", "count_ones", "trailing_zeros", "leading_zeros")
+
+    def __init__(self, ranger):
+        self.r = ranger
+
+    # -- which inputs does the expression depend on ---------------------------------------------------------------------------
+    def free_inputs(self, n, env, at):
+        free = {}
+        self._collect(n, env, at, free, set(), 0)
+        return free
+
+    def _collect(self, e, env, at, free, bound, depth):
+        e = H.strip(e)
+        t = H.tag(e)
+        if depth > 14:
+            raise NotPure()
+        if t == "lit":
+            if e[1] not in ("int", "bool"):
+                raise NotPure()
+            return
+        if t == "path":
+            if self.r.consts(e[1]) is None:
+                raise NotPure()
+            return
+        if t == "local":
+            if e[1] in bound:
+                return
+            b = env.get(e[1], at) if env is not None else None
+            if b is None:
+                raise NotPure()
+            if b[0] == "expr" and e[1] not in self.r.mutated:
+                return self._collect(b[1], b[2], b[4], free, set(), depth + 1)
+            r = self.r.rng(e, env, at)
+            if r is None or r[1] - r[0] > 70000:
+                raise NotPure()
+            free[e[1]] = r
+            return
+        if t in ("ref", "refmut"):
+            return self._collect(e[1], env, at, free, bound, depth)
+        if t == "un" and e[2] in ("Deref", "Not", "Neg"):
+            return self._collect(e[4], env, at, free, bound, depth)
+        if t == "cast" and e[3] in INT_TYPES and (e[2] in INT_TYPES or e[2] == "bool"):
+            return self._collect(e[4], env, at, free, bound, depth)
+        if t == "bin":
+            self._collect(e[4], env, at, free, bound, depth)
+            self._collect(e[5], env, at, free, bound, depth)
+            return
+        if t == "if" and e[3] is not None and H.tag(H.strip(e[1])) != "letexpr":
+            for x in (e[1], e[2], e[3]):
+                self._collect(x, env, at, free, bound, depth)
+            return
+        if t == "block":
+            b2 = set(bound)
+            for st in e[1]:
+                if st[0] == "let" and H.tag(st[1]) == "bind" and st[2] is not None:
+                    self._collect(st[2], env, at, free, b2, depth)
+                    b2.add(st[1][1])
+                elif st[0] == "item":
+                    continue
+                else:
+                    raise NotPure()
+            if e[2] is None:
+                raise NotPure()
+            return self._collect(e[2], env, at, free, b2, depth)
+        if t == "mcall":
+            mc = H.mcall(e)
+            if mc["name"] in self.INT_METHODS and (mc["path"] or "").startswith("std::"):
+                self._collect(mc["recv"], env, at, free, bound, depth)
+                for a in mc["args"]:
+                    self._collect(a, env, at, free, bound, depth)
+                return
+            if mc["name"] in ("into", "clone") and not mc["args"]:
+                return self._collect(mc["recv"], env, at, free, bound, depth)
+            fn = self._pure_fn(mc["path"])
+            if fn is not None:
+                for a in [mc["recv"]] + mc["args"]:
+                    self._collect(a, env, at, free, bound, depth)
+                return self._collect(fn["hir"], None, None, free, {p[1] for p in fn["params"]}, depth + 1)
+            raise NotPure()
+        if t == "call":
+            p = H.call_path(e) or ""
+            args = H.call_args(e)
+            if p in ("std::convert::From::from", "std::convert::Into::into") and len(args) == 1:
+                return self._collect(args[0], env, at, free, bound, depth)
+            fn = self._pure_fn(p)
+            if fn is not None and len(fn["params"]) == len(args):
+                for a in args:
+                    self._collect(a, env, at, free, bound, depth)
+                return self._collect(fn["hir"], None, None, free, {p_[1] for p_ in fn["params"]}, depth + 1)
+            raise NotPure()
+        raise NotPure()
+
+    def _pure_fn(self, path):
+        if self.r.fn_of is None or not path or not path.startswith(("crate::", "<crate::")):
+            return None
+        fn = self.r.fn_of(path)
+        if fn is None or fn.get("hir") is None or any(H.tag(p) != "bind" for p in fn["params"]):
+            return None
+        if sum(1 for _ in H.walk(fn["hir"])) > 200:
+            return None
+        return fn
+
+    # -- value for concrete inputs ------------------------------------------------------------------------------------------------------
+    def value(self, e, env, at, x, scope=None):
+        e = H.strip(e)
+        t = H.tag(e)
+        sc = scope if scope is not None else {}
+        if t == "lit":
+            return int(e[2]) if e[1] == "int" else int(e[2] == "true")
+        if t == "path":
+            return self.r.consts(e[1])
+        if t == "local":
+            if e[1] in sc:
+                return sc[e[1]]
+            if e[1] in x:
+                return x[e[1]]
+            b = env.get(e[1], at) if env is not None else None
+            if b is not None and b[0] == "expr" and e[1] not in self.r.mutated:
+                return self.value(b[1], b[2], b[4], x, {})
+            raise NotPure()
+        if t in ("ref", "refmut"):
+            return self.value(e[1], env, at, x, sc)
+        if t == "un":
+            v = self.value(e[4], env, at, x, sc)
+            if e[2] == "Deref":
+                return v
+            if e[2] == "Not":
+                if e[3] == "bool":
+                    return int(not v)
+                bits = INT_TYPES[e[3]][0]
+                return ~v & ((1 << bits) - 1) if not INT_TYPES[e[3]][1] else ~v
+            return -v
+        if t == "cast":
+            v = self.value(e[4], env, at, x, sc)
+            bits, signed = INT_TYPES[e[3]]
+            v &= (1 << bits) - 1
+            return v - (1 << bits) if signed and v >= 1 << (bits - 1) else v
+        if t == "if":
+            c = self.value(e[1], env, at, x, sc)
+            return self.value(e[2] if c else e[3], env, at, x, sc)
+        if t == "block":
+            s2 = dict(sc)
+            for st in e[1]:
+                if st[0] == "let":
+                    s2[st[1][1]] = self.value(st[2], env, at, x, s2)
+            return self.value(e[2], env, at, x, s2)
+        if t == "mcall":
+            mc = H.mcall(e)
+            nm = mc["name"]
+            if nm in self.INT_METHODS and (mc["path"] or "").startswith("std::"):
+                ty = re.search(r"<impl (\w+)>", mc["path"])
+                ty = ty.group(1) if ty else None
+                lo, hi = ty_range(ty) if ty in INT_TYPES else (None, None)
+                a = self.value(mc["recv"], env, at, x, sc)
+                bs = [self.value(q, env, at, x, sc) for q in mc["args"]]
+                if nm == "saturating_sub":
+                    return max(a - bs[0], lo)
+                if nm == "saturating_add":
+                    return min(a + bs[0], hi)
+                if nm in ("wrapping_sub", "wrapping_add", "wrapping_mul"):
+                    v = {"wrapping_sub": a - bs[0], "wrapping_add": a + bs[0], "wrapping_mul": a * bs[0]}[nm] & ((1 << INT_TYPES[ty][0]) - 1)
+                    return v - (1 << INT_TYPES[ty][0]) if INT_TYPES[ty][1] and v >= 1 << (INT_TYPES[ty][0] - 1) else v
+                if nm == "min":
+                    return min(a, bs[0])
+                if nm == "max":
+                    return max(a, bs[0])
+                if nm == "abs":
+                    return abs(a)
+                if nm == "count_ones":
+                    return bin(a & ((1 << INT_TYPES[ty][0]) - 1)).count("1")
+                if nm == "pow":
+                    v = a ** bs[0]
+                    if not (lo <= v <= hi):
+                        raise OverflowError(f"`{H.short(e, maxlen=60)}` = {v}")
+                    return v
+                raise NotPure()
+            if nm in ("into", "clone") and not mc["args"]:
+                return self.value(mc["recv"], env, at, x, sc)
+            fn = self._pure_fn(mc["path"])
+            if fn is not None:
+                vals = [self.value(q, env, at, x, sc) for q in [mc["recv"]] + mc["args"]]
+                return self.value(fn["hir"], None, None, {}, {p[1]: v for p, v in zip(fn["params"], vals)})
+            raise NotPure()
+        if t == "call":
+            p = H.call_path(e) or ""
+            args = H.call_args(e)
+            if p in ("std::convert::From::from", "std::convert::Into::into"):
+                return self.value(args[0], env, at, x, sc)
+            fn = self._pure_fn(p)
+            if fn is None:
+                raise NotPure()
+            vals = [self.value(q, env, at, x, sc) for q in args]
+            return self.value(fn["hir"], None, None, {}, {p_[1]: v for p_, v in zip(fn["params"], vals)})
+        if t != "bin":
+            raise NotPure()
+        op = e[2]
+        a = self.value(e[4], env, at, x, sc)
+        if op == "And":
+            return int(bool(a) and bool(self.value(e[5], env, at, x, sc)))
+        if op == "Or":
+            return int(bool(a) or bool(self.value(e[5], env, at, x, sc)))
+        b = self.value(e[5], env, at, x, sc)
+        tr = ty_range(e[3]) if e[3] in INT_TYPES else None
+        if op in ("Div", "Rem") and b == 0:
+            raise ZeroDivisionError()
+        if op in ("Shl", "Shr") and e[3] in INT_TYPES and not (0 <= b < INT_TYPES[e[3]][0]):
+            raise OverflowError(f"shift by {b}")
+        r = {"Add": lambda: a + b, "Sub": lambda: a - b, "Mul": lambda: a * b, "Div": lambda: int(a / b) if (a < 0) != (b < 0) else a // b,
+             "Rem": lambda: a - b * (int(a / b) if (a < 0) != (b < 0) else a // b), "Shl": lambda: a << b, "Shr": lambda: a >> b, "BitAnd": lambda: a & b,
+             "BitOr": lambda: a | b, "BitXor": lambda: a ^ b, "Lt": lambda: int(a < b), "Le": lambda: int(a <= b), "Gt": lambda: int(a > b), "Ge": lambda: int(a >= b),
+             "Eq": lambda: int(a == b), "Ne": lambda: int(a != b)}[op]()
+        if op in ("Add", "Sub", "Mul", "Shl") and tr is not None and not (tr[0] <= r <= tr[1]):
+            raise OverflowError(f"`{H.short(e, maxlen=70)}` = {r}")
+        return r
